@@ -46,7 +46,9 @@ type Session struct {
 	BasePath string
 	leak     bool
 	SubDir   string // directory of the Sub view the calls go through
-	Win      bool   // a Windows-typed file system: C:\ paths, modes and owners are not compared
+	// CwdFS, when set, is the view whose working directory the projection reports (the acting user's view)
+	CwdFS avfs.VFS
+	Win   bool // a Windows-typed file system: C:\ paths, modes and owners are not compared
 }
 
 // Cred is the acting user of the session (nil = administrator).
@@ -481,6 +483,8 @@ func (s *Session) exec(c Call, res *Res) {
 		setErr(vfs.Chtimes(p, t, t))
 	case "chdir":
 		setErr(vfs.Chdir(p))
+	case "setuser":
+		setErr(s.setUser(c.Uid, c.Gid))
 	case "setumask":
 		setErr(vfs.SetUMask(fs.FileMode(c.Perm)))
 	case "glob":
@@ -753,3 +757,65 @@ func (s *Session) HasMetaPattern(p Path) bool {
 
 // ErrInjected is the error a FailFS plan injects.
 var ErrInjected = errors.New("verif: injected failure")
+
+// setUser changes the acting identity (C03). The kernel reference switches the file-system credentials of the
+// thread around every later call; a MemFS gets a view of its own (Sub("/")) acting as the MemIdm user with that
+// uid, while the projection keeps reading through the administrator's file system. MemIdm hands out ids from
+// 1001 in creation order: g1/u1 = 1001, g2/u2 = 1002.
+func (s *Session) setUser(uid, gid int) error {
+	if s.AsUser != nil {
+		s.Cred = nil
+		if uid != 0 {
+			s.Cred = &Cred{Uid: uid, Gid: gid, Groups: []int{}}
+		}
+
+		return nil
+	}
+
+	root := s.base()
+	idm := root.Idm()
+
+	if idm == nil || !root.HasFeature(avfs.FeatIdentityMgr) {
+		return fmt.Errorf("target has no identity manager")
+	}
+
+	for _, n := range []string{"1", "2"} {
+		if _, err := idm.LookupGroup("g" + n); err != nil {
+			if _, err := idm.AddGroup("g" + n); err != nil {
+				return err
+			}
+		}
+
+		if _, err := idm.LookupUser("u" + n); err != nil {
+			if _, err := idm.AddUser("u"+n, "g"+n); err != nil {
+				return err
+			}
+		}
+	}
+
+	u := idm.AdminUser()
+
+	if uid != 0 {
+		var err error
+
+		u, err = idm.LookupUserId(uid)
+		if err != nil {
+			return err
+		}
+
+		if u.Gid() != gid {
+			return fmt.Errorf("user %d has group %d, the plan wants %d", uid, u.Gid(), gid)
+		}
+	}
+
+	if s.Base == nil {
+		view, err := s.FS.Sub("/")
+		if err != nil {
+			return err
+		}
+
+		s.Base, s.FS, s.CwdFS = s.FS, view, view
+	}
+
+	return s.FS.SetUser(u)
+}
